@@ -1,1 +1,271 @@
-// lemmas of C17 over the command operations (round trip, frames)
+// Lemmas of C17 over the command operations. The exec functions (the five arms of `match cli.command`, extracted
+// verbatim) are proved to refine `step_ok(cmd, old world, new world)`; everything below is about `step_ok` only, i.e.
+// it holds for every initial file system, every file content and every sequence of commands.
+
+pub enum Cmd { Backup, Install, Restore { delete_backup: bool }, Uninstall { package: bool }, Purge }
+
+pub open spec fn cmd_fs(c: Cmd, fs: Fs) -> Fs {
+    match c {
+        Cmd::Backup => backup_op(fs),
+        Cmd::Install => install_op(fs),
+        Cmd::Restore { delete_backup } => restore_op(fs, delete_backup),
+        Cmd::Uninstall { package } => uninstall_op(fs, package),
+        Cmd::Purge => purge_op(fs),
+    }
+}
+pub open spec fn cmd_trace_ok(c: Cmd, o: World, n: World) -> bool {
+    match c {
+        Cmd::Backup => neutral_ext(o.tr, n.tr),
+        Cmd::Install => stop_work_start(o.tr, n.tr),
+        Cmd::Restore { delete_backup } => if o.fs.dom().contains(bak_exe()) { restore_trace(o.tr, n.tr, delete_backup) } else { n.tr == o.tr },
+        Cmd::Uninstall { package } => quiet_ext(o.tr.push(systemctl("stop"@)), n.tr),
+        Cmd::Purge => neutral_ext(o.tr, n.tr),
+    }
+}
+// one command, as far as the property is concerned
+pub open spec fn step_ok(c: Cmd, o: World, n: World) -> bool {
+    &&& (o.fault ==> n.fault)
+    &&& (forall|p: PathV| !may_change(p) ==> #[trigger] at(n.fs, p) == at(o.fs, p))     // even when the environment fails
+    &&& (!n.fault ==> n.fs == cmd_fs(c, o.fs) && cmd_trace_ok(c, o, n))
+}
+
+pub open spec fn installed(fs: Fs) -> bool {
+    fs.dom().contains(sys_exe()) && fs.dom().contains(sys_config()) && fs.dom().contains(sys_ebpf()) && fs.dom().contains(sys_unit())
+}
+pub open spec fn same_system_files(a: Fs, b: Fs) -> bool {
+    at(a, sys_exe()) == at(b, sys_exe()) && at(a, sys_config()) == at(b, sys_config()) && at(a, sys_ebpf()) == at(b, sys_ebpf()) && at(a, sys_unit()) == at(b, sys_unit())
+}
+
+// ---- the sentences of the statement, one lemma each ------------------------------------------------------------------
+// "backup: the backup paths hold the system files, nothing else changes"
+pub proof fn lemma_backup(fs: Fs)
+    requires wf_layout()
+    ensures
+        fs.dom().contains(sys_exe()) ==> at(backup_op(fs), bak_exe()) == at(fs, sys_exe()),  // @C17.lemma_backup.executable_saved
+        fs.dom().contains(sys_config()) ==> at(backup_op(fs), bak_config()) == at(fs, sys_config()),  // @C17.lemma_backup.configuration_saved
+        fs.dom().contains(sys_ebpf()) ==> at(backup_op(fs), bak_ebpf()) == at(fs, sys_ebpf()),  // @C17.lemma_backup.ebpf_object_saved
+        fs.dom().contains(sys_unit()) ==> at(backup_op(fs), bak_unit()) == at(fs, sys_unit()),  // @C17.lemma_backup.service_unit_saved
+        forall|p: PathV| !is_bak_slot(p) ==> #[trigger] at(backup_op(fs), p) == at(fs, p),  // @C17.lemma_backup.nothing_else_changes
+{
+    lemma_layout();
+}
+
+// "Install places exactly the packaged files"
+pub proof fn lemma_install(fs: Fs)
+    requires wf_layout()
+    ensures
+        at(install_op(fs), sys_exe()) == (if fs.dom().contains(pkg_exe()) { at(fs, pkg_exe()) } else { at(fs, sys_exe()) }),  // @C17.lemma_install.packaged_executable_placed
+        at(install_op(fs), sys_config()) == (if fs.dom().contains(pkg_config()) { at(fs, pkg_config()) } else { at(fs, sys_config()) }),  // @C17.lemma_install.packaged_configuration_placed
+        at(install_op(fs), sys_ebpf()) == (if fs.dom().contains(pkg_ebpf()) { at(fs, pkg_ebpf()) } else { at(fs, sys_ebpf()) }),  // @C17.lemma_install.packaged_ebpf_object_placed
+        at(install_op(fs), sys_unit()) == (if fs.dom().contains(pkg_unit()) { at(fs, pkg_unit()) } else { at(fs, sys_unit()) }),  // @C17.lemma_install.packaged_service_unit_placed
+        forall|p: PathV| !is_sys(p) ==> #[trigger] at(install_op(fs), p) == at(fs, p),  // @C17.lemma_install.nothing_else_changes
+{
+    lemma_layout();
+}
+
+// "restore without a backup changes nothing"
+pub proof fn lemma_restore_without_backup(fs: Fs, delete_backup: bool)
+    requires wf_layout(), no_backup(fs)
+    ensures restore_op(fs, delete_backup) == fs  // @C17.lemma_restore.without_backup_changes_nothing
+{
+    lemma_layout();
+    assert(in_backup(bak_exe()));
+}
+
+// "uninstall in package mode removes the installed files"
+pub proof fn lemma_uninstall(fs: Fs)
+    ensures
+        at(uninstall_op(fs, true), sys_exe()) is None && at(uninstall_op(fs, true), sys_config()) is None
+            && at(uninstall_op(fs, true), sys_ebpf()) is None && at(uninstall_op(fs, true), sys_unit()) is None,  // @C17.lemma_uninstall.installed_files_removed
+        forall|p: PathV| !is_sys(p) ==> #[trigger] at(uninstall_op(fs, true), p) == at(fs, p),  // @C17.lemma_uninstall.nothing_else_changes
+        forall|p: PathV| p != sys_unit() ==> #[trigger] at(uninstall_op(fs, false), p) == at(fs, p),
+{
+    lemma_names();
+}
+
+// "purge removes only the backup"
+pub proof fn lemma_purge(fs: Fs)
+    ensures
+        forall|p: PathV| in_backup(p) ==> #[trigger] at(purge_op(fs), p) is None,  // @C17.lemma_purge.backup_removed
+        forall|p: PathV| !in_backup(p) ==> #[trigger] at(purge_op(fs), p) == at(fs, p),  // @C17.lemma_purge.only_the_backup
+{
+}
+
+// ---- the round trip ---------------------------------------------------------------------------------------------------
+// "After backup, installation of another version and then restore, the four files at their system locations are
+//  byte-identical to what they were before the upgrade": whatever the installation wrote to the system locations
+// (`f2` is ANY file system that differs from the backed-up one only at system locations), restore reinstates fs0 there.
+pub proof fn lemma_round_trip_any_install(fs0: Fs, f2: Fs, delete_backup: bool)
+    requires
+        wf_layout(),
+        installed(fs0),
+        forall|p: PathV| !is_sys(p) ==> #[trigger] at(f2, p) == at(backup_op(fs0), p),
+    ensures
+        same_system_files(restore_op(f2, delete_backup), fs0),  // @C17.lemma_round_trip.system_files_byte_identical
+{
+    lemma_layout();
+    lemma_backup(fs0);
+    let f1 = backup_op(fs0);
+    assert(at(f2, bak_exe()) == at(f1, bak_exe()));
+    assert(at(f2, bak_config()) == at(f1, bak_config()));
+    assert(at(f2, bak_ebpf()) == at(f1, bak_ebpf()));
+    assert(at(f2, bak_unit()) == at(f1, bak_unit()));
+    let r = restore_files(f2);
+    assert(at(r, sys_exe()) == at(fs0, sys_exe()));
+    assert(at(r, sys_config()) == at(fs0, sys_config()));
+    assert(at(r, sys_ebpf()) == at(fs0, sys_ebpf()));
+    assert(at(r, sys_unit()) == at(fs0, sys_unit()));
+}
+// ... in particular for the tool's own install
+pub proof fn lemma_round_trip(fs0: Fs, delete_backup: bool)
+    requires wf_layout(), installed(fs0)
+    ensures same_system_files(restore_op(install_op(backup_op(fs0)), delete_backup), fs0),  // @C17.lemma_round_trip.restore_install_backup_is_identity_on_system_files
+{
+    lemma_install(backup_op(fs0));
+    lemma_round_trip_any_install(fs0, install_op(backup_op(fs0)), delete_backup);
+}
+
+// ---- the service ---------------------------------------------------------------------------------------------------------
+pub proof fn lemma_stop_work_start(o: Seq<Ev>, n: Seq<Ev>)
+    requires stop_work_start(o, n)
+    ensures svc(n) == (Svc { stopped: false, dirty: false, bad: svc(o).bad })
+{
+    lemma_names();
+    let t1 = o.push(systemctl("stop"@));
+    lemma_svc_push(o, systemctl("stop"@));
+    let m = n.drop_last();
+    lemma_quiet(t1, m);
+    assert(n =~= m.push(n.last()));
+    lemma_svc_push(m, n.last());
+}
+
+// one command never changes a system file while the service is not stopped; install and restore leave it started
+pub proof fn lemma_step_service(c: Cmd, o: World, n: World)
+    requires wf_layout(), step_ok(c, o, n), !n.fault
+    ensures
+        svc(n.tr).bad == svc(o.tr).bad,  // @C17.lemma_step_service.stopped_before_any_system_file_changes
+        (c is Install || (c is Restore && o.fs.dom().contains(bak_exe()))) ==> !svc(n.tr).dirty && !svc(n.tr).stopped,  // @C17.lemma_step_service.started_again_afterwards
+{
+    lemma_layout();
+    lemma_names();
+    match c {
+        Cmd::Backup => { lemma_neutral(o.tr, n.tr); }
+        Cmd::Purge => { lemma_neutral(o.tr, n.tr); }
+        Cmd::Install => { lemma_stop_work_start(o.tr, n.tr); }
+        Cmd::Uninstall { package } => {
+            lemma_svc_push(o.tr, systemctl("stop"@));
+            lemma_quiet(o.tr.push(systemctl("stop"@)), n.tr);
+        }
+        Cmd::Restore { delete_backup } => {
+            if o.fs.dom().contains(bak_exe()) {
+                if delete_backup {
+                    let k = n.tr.drop_last();
+                    lemma_stop_work_start(o.tr, k);
+                    assert(n.tr =~= k.push(n.tr.last()));
+                    lemma_svc_push(k, n.tr.last());
+                } else {
+                    lemma_stop_work_start(o.tr, n.tr);
+                }
+            }
+        }
+    }
+}
+
+// ---- histories: every sequence of commands from every initial state ---------------------------------------------------
+pub open spec fn history_ok(cs: Seq<Cmd>, ws: Seq<World>) -> bool {
+    ws.len() == cs.len() + 1 && (forall|i: int| 0 <= i < cs.len() ==> #[trigger] step_ok(cs[i], ws[i], ws[i + 1]))
+}
+
+// "no command alters any file outside those locations (and) the backup folder" -- also when the environment fails
+pub proof fn lemma_history_frame(cs: Seq<Cmd>, ws: Seq<World>)
+    requires history_ok(cs, ws)
+    ensures forall|p: PathV| !may_change(p) ==> #[trigger] at(ws.last().fs, p) == at(ws[0].fs, p),  // @C17.lemma_history.nothing_outside_system_locations_and_backup_changes
+    decreases cs.len()
+{
+    if cs.len() > 0 {
+        let cs1 = cs.drop_last();
+        let ws1 = ws.drop_last();
+        assert(history_ok(cs1, ws1)) by {
+            assert forall|i: int| 0 <= i < cs1.len() implies #[trigger] step_ok(cs1[i], ws1[i], ws1[i + 1]) by {
+                assert(step_ok(cs[i], ws[i], ws[i + 1]));
+            }
+        }
+        lemma_history_frame(cs1, ws1);
+        let k = cs.len() - 1;
+        assert(step_ok(cs[k], ws[k], ws[k + 1]));
+        assert(ws1.last() == ws[k]);
+        assert(ws1[0] == ws[0]);
+    }
+}
+
+// "the service having been stopped before any file was replaced": in a fault-free history no system file ever
+// changes while the service is not stopped
+pub proof fn lemma_history_service(cs: Seq<Cmd>, ws: Seq<World>)
+    requires wf_layout(), history_ok(cs, ws), !ws.last().fault
+    ensures svc(ws.last().tr).bad == svc(ws[0].tr).bad,  // @C17.lemma_history.never_a_system_file_change_while_not_stopped
+    decreases cs.len()
+{
+    if cs.len() > 0 {
+        let cs1 = cs.drop_last();
+        let ws1 = ws.drop_last();
+        let k = cs.len() - 1;
+        assert(step_ok(cs[k], ws[k], ws[k + 1]));
+        assert(ws1.last() == ws[k]);
+        assert(ws1[0] == ws[0]);
+        assert(history_ok(cs1, ws1)) by {
+            assert forall|i: int| 0 <= i < cs1.len() implies #[trigger] step_ok(cs1[i], ws1[i], ws1[i + 1]) by {
+                assert(step_ok(cs[i], ws[i], ws[i + 1]));
+            }
+        }
+        lemma_history_service(cs1, ws1);
+        lemma_step_service(cs[k], ws[k], ws[k + 1]);
+    }
+}
+
+// what `bad` means, read off the trace: if it is false, every change of a system file is preceded by a
+// `systemctl stop` with no `systemctl start` in between
+pub open spec fn stopped_at(tr: Seq<Ev>, i: int) -> bool {
+    exists|j: int| 0 <= j < i && is_stop(#[trigger] tr[j]) && (forall|k: int| j < k < i ==> !is_start(#[trigger] tr[k]))
+}
+pub proof fn lemma_stopped_meaning(tr: Seq<Ev>)
+    ensures
+        svc(tr).stopped ==> stopped_at(tr, tr.len() as int),
+        !svc(tr).bad ==> (forall|i: int| 0 <= i < tr.len() && touches_sys(#[trigger] tr[i]) ==> stopped_at(tr, i)),  // @C17.lemma_trace.every_system_file_change_is_preceded_by_stop_without_start
+    decreases tr.len()
+{
+    lemma_names();
+    if tr.len() > 0 {
+        let m = tr.drop_last();
+        let e = tr.last();
+        lemma_stopped_meaning(m);
+        let n = m.len() as int;
+        assert forall|i: int| 0 <= i <= n && stopped_at(m, i) implies stopped_at(tr, i) by {
+            let j = choose|j: int| 0 <= j < i && is_stop(#[trigger] m[j]) && (forall|k: int| j < k < i ==> !is_start(#[trigger] m[k]));
+            assert(tr[j] == m[j]);
+            assert forall|k: int| j < k < i implies !is_start(#[trigger] tr[k]) by { assert(tr[k] == m[k]); }
+        }
+        if svc(tr).stopped {
+            if is_stop(e) {
+                assert(tr[n] == e);
+            } else {
+                assert(svc(m).stopped && !is_start(e));
+                assert(stopped_at(tr, n));
+                let j = choose|j: int| 0 <= j < n && is_stop(#[trigger] tr[j]) && (forall|k: int| j < k < n ==> !is_start(#[trigger] tr[k]));
+                assert forall|k: int| j < k < n + 1 implies !is_start(#[trigger] tr[k]) by { if k == n { assert(tr[n] == e); } }
+                assert(stopped_at(tr, n + 1));
+            }
+        }
+        if !svc(tr).bad {
+            assert(!svc(m).bad);
+            assert forall|i: int| 0 <= i < tr.len() && touches_sys(#[trigger] tr[i]) implies stopped_at(tr, i) by {
+                if i < n {
+                    assert(tr[i] == m[i]);
+                } else {
+                    assert(tr[n] == e);
+                    assert(!is_stop(e) && !is_start(e));
+                    assert(svc(m).stopped);
+                }
+            }
+        }
+    }
+}
